@@ -174,12 +174,16 @@ def _check(v, w, n0, what, tgt, ns, ev, who, core_args):
 
 
 RAISE = 'RAISE!'
+RAISES = ['KeyError', 'LookupError', 'AttributeError', 'TypeError',
+          'ValueError', 'IndexError']
 
 
 def _raise_plan(case, args):
-    if case.get('raises') and args and args[-1] == RAISE:
+    # (every run tries every exception type: the grid is small, and which
+    # type a sloppy try/except swallows must not be left to the draw)
+    if len(args) >= 2 and args[-2] == RAISE:
         import builtins
-        return [('raise', getattr(builtins, case['raises'])(
+        return [('raise', getattr(builtins, args[-1])(
             'injected handler failure'))]
     return None
 
@@ -254,13 +258,14 @@ def _run_server(case, bits, other, mode, coroutine, w):
     if want_ack != (len(acks) == 1):
         v.add('ack_presence', 'id %r target %s: acks %s'
               % (case['id'], tgt, acks))
-    if case.get('raises'):
+    for exn in RAISES:
         n0 = len(w.rec.events)
-        peer.send_pkt(sio.EVENT, ns, None, [ev] + case['args'] + [RAISE])
+        peer.send_pkt(sio.EVENT, ns, None, [ev] + case['args'] + [RAISE,
+                                                                  exn])
         w.settle()
         w.rec.count('fault.handler_raise')
         _check(v, w, n0, 'raising-target', tgt, ns, ev, 's',
-               [sid] + wire_norm(case['args']) + [RAISE])
+               [sid] + wire_norm(case['args']) + [RAISE, exn])
     if bits & (2 | 8):
         # lazy registration from inside the catch-all, then the event again
         t_first = ('func', 'NS', '*', ['event']) if bits & 2 else \
@@ -560,13 +565,13 @@ def _run_client(case, bits, other, mode, coroutine, w):
         if acks[0].data != want or acks[0].nsp != ns or \
                 acks[0].id != case['id']:
             v.add('ack_content', '%s, wanted %s' % (acks[0], want))
-    if case.get('raises'):
+    for exn in RAISES:
         n0 = len(w.rec.events)
-        ss.send_pkt(sio.EVENT, ns, None, [ev] + case['args'] + [RAISE])
+        ss.send_pkt(sio.EVENT, ns, None, [ev] + case['args'] + [RAISE, exn])
         w.settle()
         w.rec.count('fault.handler_raise')
         _check(v, w, n0, 'raising-target', tgt, ns, ev, 'c',
-               wire_norm(case['args']) + [RAISE])
+               wire_norm(case['args']) + [RAISE, exn])
     # an event literally named '*' (see the server side)
     n0 = len(w.rec.events)
     ss.send_pkt(sio.EVENT, ns, None, ['*', 7])
